@@ -9,6 +9,7 @@ import Driver.Manager
 import Driver.Stream
 import Driver.Tls
 import Driver.Views
+import Driver.Life
 open Anemo Anemo.Driver
 
 /-- state carried across lines by the stateful models -/
@@ -37,6 +38,7 @@ def step (st : DState) (line : String) : DState × String :=
       let (ms, o) := managerOp st.manager cmd args
       ({ st with manager := ms }, o)
     else if cmd.startsWith "tls." then (st, tlsOp cmd args)
+    else if cmd.startsWith "life." then (st, lifeOp cmd args)
     else if cmd.startsWith "views." || cmd.startsWith "link." then
       let (vs, o) := viewsOp st.views cmd args
       ({ st with views := vs }, o)
